@@ -522,7 +522,9 @@ impl Worker {
                     verif::probe("w_recv", verif::wid(), 1, 0);
                     #[cfg(varlink_rust_verif)]
                     verif::probe("gate_w_start", verif::wid(), 0, 0);
-                    job.call_box();
+                    // a panicking connection handler must not take its worker thread (and the job's
+                    // place in the busy count) with it: the pool would keep counting a thread that is gone
+                    let _ = std::panic::catch_unwind(std::panic::AssertUnwindSafe(move || job.call_box()));
                     #[cfg(varlink_rust_verif)]
                     verif::probe("gate_w_uncount", verif::wid(), 0, 0);
                     {
